@@ -276,7 +276,20 @@ type c12Worker struct {
 
 var c12TheWorker *c12Worker
 
-const c12Deadline = 20 * time.Second
+// inputs stay below ~64 KiB and parse in well under 10 ms (the worst quadratic cases in about a
+// second); 6 s without a verdict, confirmed twice more in fresh workers, is non-termination
+const c12Deadline = 6 * time.Second
+
+var c12HangConfirmed bool
+
+// c12CurrentDeadline: after a hang has been confirmed three times in this process, further
+// attempts (rapid shrinking the case) use a short deadline so that shrinking stays bounded.
+func c12CurrentDeadline() time.Duration {
+	if c12HangConfirmed {
+		return 1500 * time.Millisecond
+	}
+	return c12Deadline
+}
 
 func c12Start() (*c12Worker, error) {
 	cmd := exec.Command(os.Args[0], "-test.run", "^TestVerifC12Worker$", "-test.timeout", "0")
@@ -354,7 +367,7 @@ func c12Ask(tables [][]byte) (c12Verdict, error) {
 			return c12Verdict{}, fmt.Errorf("bad verdict line %q: %v", r.line, err)
 		}
 		return v, nil
-	case <-time.After(c12Deadline):
+	case <-time.After(c12CurrentDeadline()):
 		w.kill()
 		c12TheWorker = nil
 		return c12Verdict{Outcome: "hang", Detail: fmt.Sprintf("no verdict within %v", c12Deadline)}, nil
@@ -408,14 +421,16 @@ func c12Judge(c c12Case) (*vlib.Failure, c12Verdict) {
 	if err != nil {
 		return vlib.Failf("VERIF-HARNESS worker protocol error: %v", err), v
 	}
-	if v.Outcome == "hang" {
-		// confirm twice in fresh workers before calling it non-termination
+	if v.Outcome == "hang" && !c12HangConfirmed {
+		// confirm twice in fresh workers before calling it non-termination (once per process:
+		// while rapid shrinks a confirmed hang, one deadline per attempt is enough)
 		for i := 0; i < 2; i++ {
 			v2, err := c12Ask(c.Tables)
 			if err != nil || v2.Outcome != "hang" {
 				return nil, c12Verdict{Outcome: "inconclusive-slow"}
 			}
 		}
+		c12HangConfirmed = true
 	}
 	switch v.Outcome {
 	case "ok", "rejected":
@@ -425,7 +440,7 @@ func c12Judge(c c12Case) (*vlib.Failure, c12Verdict) {
 	case "crash":
 		return vlib.Failf("the parser crashed the process on a %d-byte table: %s", len(c.Tables[len(c.Tables)-1]), v.Detail), v
 	case "hang":
-		return vlib.Failf("the parser did not terminate within %v on a %d-byte table (confirmed three times in fresh processes)", c12Deadline, len(c.Tables[len(c.Tables)-1])), v
+		return vlib.Failf("the parser did not terminate within %v on a %d-byte table (a hang is confirmed three times in fresh processes before it is reported)", c12Deadline, len(c.Tables[len(c.Tables)-1])), v
 	case "stray":
 		return vlib.Failf("after parsing: %s", v.Detail), v
 	case "broken-tree":
